@@ -251,6 +251,9 @@ class NP(object):
         return sym_sqrt(x)
 
     def abs(self, x):
+        if hasattr(x, 'term') and hasattr(x, 'oid'):
+            from .invloop import Vec
+            return _AbsVec(x)
         return self.interp.builtins['abs'](x)
 
     def isnan(self, x):
@@ -304,6 +307,17 @@ class NP(object):
 
     def isclose(self, a, b, **k):
         raise CheckerError('numpy.isclose needs a contract')
+
+
+class _AbsVec(object):
+    def __init__(self, v):
+        self.v = v
+
+    def sym_getattr(self, interp, name):
+        if name == 'max':
+            from .invloop import maxabs
+            return lambda: maxabs(self.v)
+        raise CheckerError('abs(vector).%s needs a contract' % name)
 
 
 class _NdarrayType(object):
